@@ -1944,8 +1944,11 @@ class LeCreditBasedChannel(utils.EventEmitter):
                             f'packet completed, {len(self.out_queue)} left in queue'
                         )
 
+                if not payload:
+                    # Only empty buffers were queued, there is nothing to send
+                    continue
+
                 # Construct the SDU with its header
-                assert len(payload) != 0
                 logger.debug(f'SDU complete: {len(payload)} payload bytes')
                 self.out_sdu = struct.pack('<H', len(payload)) + payload
             else:
